@@ -160,6 +160,12 @@ func init() {
 		"(*sync.RWMutex).Unlock":                 mUnlock,
 		"(*sync.RWMutex).RLock":                  func(ex *Exec, a []Val) Val { return nil },
 		"(*sync.RWMutex).RUnlock":                func(ex *Exec, a []Val) Val { return nil },
+		"(*sync.Map).Load":                       mSyncMapLoad,
+		"(*sync.Map).Store":                      mSyncMapStore,
+		"(*sync.Map).LoadOrStore":                mSyncMapLoadOrStore,
+		"(*sync.Map).LoadAndDelete":              mSyncMapLoadAndDelete,
+		"(*sync.Map).Delete":                     mSyncMapDelete,
+		"(*sync.Map).Range":                      mSyncMapRange,
 		"context.Background":                     mCtxBackground,
 		"context.TODO":                           mCtxBackground,
 		"(context.backgroundCtx).Value":          func(ex *Exec, a []Val) Val { return nil },
@@ -202,6 +208,12 @@ func init() {
 		"sort.SliceStable":               mSortSlice,
 		"sort.Strings":                   mSortStrings,
 		"sort.Ints":                      mSortInts,
+		"sort.Search":                    mSortSearch,
+		"sort.SearchInts":                mSortSearchInts,
+		"strings.NewReplacer":            mNewReplacer,
+		"(*strings.Replacer).Replace":    mReplacerReplace,
+		"(*sync.Pool).Get":               mPoolGet,
+		"(*sync.Pool).Put":               func(ex *Exec, a []Val) Val { return nil },
 		"(*regexp.Regexp).MatchString":   mRegexpMatchString,
 		"unicode/utf8.RuneCountInString": mRuneCount,
 		"unicode/utf8.DecodeRuneInString": func(ex *Exec, a []Val) Val {
@@ -1420,6 +1432,97 @@ func mUnlock(ex *Exec, args []Val) Val {
 	return nil
 }
 
+// sync.Map: an ordered entry list per map value (keyed by the address of the
+// sync.Map), every operation atomic: its accesses are not logged as accesses of
+// a thread (C14), exactly as accesses under a held mutex would not conflict.
+func (ex *Exec) syncMap(a Val) *MapObj {
+	p := a.(Ptr)
+	if p.P == nil {
+		ex.gopanic("nil-deref", "method call on a nil *sync.Map")
+	}
+	if ex.syncMaps == nil {
+		ex.syncMaps = map[*Val]*MapObj{}
+	}
+	m := ex.syncMaps[p.P]
+	if m == nil {
+		m = &MapObj{}
+		ex.syncMaps[p.P] = m
+	}
+	return m
+}
+
+func (ex *Exec) quietly(f func()) {
+	if ex.par != nil {
+		t := ex.par.thread
+		ex.par.thread = 0
+		defer func() { ex.par.thread = t }()
+	}
+	f()
+}
+
+func mSyncMapLoad(ex *Exec, args []Val) (ret Val) {
+	m := ex.syncMap(args[0])
+	ex.quietly(func() {
+		if i := ex.mapFind(m, args[1]); i >= 0 {
+			ret = Tuple{copyVal(m.V[i]), Bool{C: true}}
+		} else {
+			ret = Tuple{nil, Bool{C: false}}
+		}
+	})
+	return
+}
+
+func mSyncMapStore(ex *Exec, args []Val) Val {
+	m := ex.syncMap(args[0])
+	ex.quietly(func() { ex.mapSet(m, args[1], args[2]) })
+	return nil
+}
+
+func mSyncMapLoadOrStore(ex *Exec, args []Val) (ret Val) {
+	m := ex.syncMap(args[0])
+	ex.quietly(func() {
+		if i := ex.mapFind(m, args[1]); i >= 0 {
+			ret = Tuple{copyVal(m.V[i]), Bool{C: true}}
+		} else {
+			ex.mapSet(m, args[1], args[2])
+			ret = Tuple{copyVal(args[2]), Bool{C: false}}
+		}
+	})
+	return
+}
+
+func mSyncMapLoadAndDelete(ex *Exec, args []Val) (ret Val) {
+	m := ex.syncMap(args[0])
+	ex.quietly(func() {
+		if i := ex.mapFind(m, args[1]); i >= 0 {
+			ret = Tuple{copyVal(m.V[i]), Bool{C: true}}
+			ex.mapDelete(m, args[1])
+		} else {
+			ret = Tuple{nil, Bool{C: false}}
+		}
+	})
+	return
+}
+
+func mSyncMapDelete(ex *Exec, args []Val) Val {
+	m := ex.syncMap(args[0])
+	ex.quietly(func() { ex.mapDelete(m, args[1]) })
+	return nil
+}
+
+func mSyncMapRange(ex *Exec, args []Val) Val {
+	m := ex.syncMap(args[0])
+	f := args[1].(Closure)
+	ks, vs := append([]Val{}, m.K...), append([]Val{}, m.V...)
+	for i := range ks {
+		r := ex.callClosure(f, []Val{copyVal(ks[i]), copyVal(vs[i])})
+		if b, ok := r.(Bool); ok && !ex.branch(b) {
+			break
+		}
+	}
+	return nil
+}
+
 func mCtxBackground(ex *Exec, args []Val) Val {
 	p := ex.w.prog.ImportedPackage("context")
 	t := p.Type("backgroundCtx").Type()
@@ -1650,6 +1753,112 @@ func mSortSlice(ex *Exec, args []Val) Val {
 	ex.sortInPlace(sl, func(i, j int) bool {
 		return ex.branch(ex.callClosure(cl, []Val{goInt(i), goInt(j)}).(Bool))
 	})
+	return nil
+}
+
+// sort.Search: binary search exactly as the library does it (the predicate is
+// called on the same indexes), so a predicate that is not monotone gets the
+// library's answer too.
+func (ex *Exec) binSearch(n int, pred func(i int) bool) int {
+	i, j := 0, n
+	for i < j {
+		h := int(uint(i+j) >> 1)
+		if !pred(h) {
+			i = h + 1
+		} else {
+			j = h
+		}
+	}
+	return i
+}
+
+func mSortSearch(ex *Exec, args []Val) Val {
+	n := ex.concInt(args[0], "sort.Search n")
+	cl := args[1].(Closure)
+	return goInt(ex.binSearch(n, func(i int) bool {
+		return ex.branch(ex.callClosure(cl, []Val{goInt(i)}).(Bool))
+	}))
+}
+
+func mSortSearchInts(ex *Exec, args []Val) Val {
+	sl, _ := args[0].(Slice)
+	x := args[1].(Int)
+	return goInt(ex.binSearch(sl.Len, func(i int) bool {
+		return ex.branch(ex.intBinop(token.GEQ, (*sl.at(i)).(Int), x).(Bool))
+	}))
+}
+
+// strings.Replacer: the pairs are kept; Replace scans left to right and at each
+// position takes the first pair (in argument order) whose old string matches.
+type replacerModel struct{ pairs [][2]Str }
+
+func mNewReplacer(ex *Exec, args []Val) Val {
+	sl, _ := args[0].(Slice)
+	el := sl.elems()
+	if len(el)%2 == 1 {
+		ex.gopanic("explicit", "strings.NewReplacer: odd argument count")
+	}
+	m := &replacerModel{}
+	for i := 0; i+1 < len(el); i += 2 {
+		o, n := el[i].(Str), el[i+1].(Str)
+		ex.needBytes(o, "NewReplacer")
+		if len(o.B) == 0 {
+			unsupported("strings.NewReplacer with an empty old string")
+		}
+		m.pairs = append(m.pairs, [2]Str{o, n})
+	}
+	var cell Val = Native{V: m}
+	return Ptr{P: &cell}
+}
+
+func mReplacerReplace(ex *Exec, args []Val) Val {
+	p := args[0].(Ptr)
+	if p.P == nil {
+		ex.gopanic("nil-deref", "Replace on a nil *strings.Replacer")
+	}
+	nv, ok := (*p.P).(Native)
+	if !ok {
+		unsupported("strings.Replacer that was not made by NewReplacer")
+	}
+	m := nv.V.(*replacerModel)
+	s := args[1].(Str)
+	ex.needBytes(s, "Replacer.Replace")
+	var out []Int
+	for i := 0; i < len(s.B); {
+		matched := false
+		for _, pr := range m.pairs {
+			old := pr[0]
+			if i+len(old.B) <= len(s.B) && ex.branch(ex.strEq(Str{B: s.B[i : i+len(old.B)]}, old)) {
+				out = append(out, pr[1].B...)
+				i += len(old.B)
+				matched = true
+				break
+			}
+		}
+		if !matched {
+			out = append(out, s.B[i])
+			i++
+		}
+	}
+	return Str{B: out}
+}
+
+// sync.Pool: never keeps anything (a legal behaviour of the real pool): Get
+// calls New, or returns nil without one.
+func mPoolGet(ex *Exec, args []Val) Val {
+	p := args[0].(Ptr)
+	if p.P == nil {
+		ex.gopanic("nil-deref", "Get on a nil *sync.Pool")
+	}
+	st, ok := (*p.P).(Struct)
+	if !ok {
+		unsupported("sync.Pool layout")
+	}
+	for _, f := range st {
+		if cl, ok := f.(Closure); ok && !isNilVal(cl) {
+			return ex.callClosure(cl, nil)
+		}
+	}
 	return nil
 }
 
